@@ -21,7 +21,14 @@ blocks; monitors:
   call (only calls whose repetition is invisible in the IR).  The entry monitors keep judging every
   later completed call: a hook that raised must not change what the journal records afterwards.
 * liveness: after dropping the worlds and ``gc.collect()`` no IR object may survive because
-  of the entries (decided causally: it dies once the entries are dropped too).  Before the worlds are
+  of the journals or their entries.  The IR objects are reachable only from the worlds and from the frames of the
+  runner, which are gone when the history ends - those of the blocks that completed and those that an exception
+  (the harness's or the re-thrown one of an IR call) unwound.  Decided causally in two stages: first the client keeps
+  the Journal objects (its way to the entries; the harness's hooks detached) with their entries, and the Journal
+  objects are dropped one by one - what dies with a Journal object was pinned by that journal
+  (``journal-keeps-recorded-objects-alive|<how its block was last left>|via <attribute>``: as long as the client
+  holds the journal no ``entry.ref()`` of it ever turns None); then only the entries are kept - what dies once the
+  entries are dropped too was pinned by the entries.  Before the worlds are
   dropped the client *looks at* the journals (``J_inspect`` markers, while a journal is active and / or after
   the last exit) through every public accessor of JournalEntry / Journal - ``entry.ref()``, ``entry.obj``,
   ``entry.details``, every public data attribute, ``entry.display()`` / ``Journal.display()`` with the output
@@ -79,7 +86,9 @@ ASSUMPTIONS = [
     "snapshot covers every public data attribute of Value/Node/Graph/Function/Model (audited against dir() at start-up)",
     "what a client keeps from looking at a journal is entries (also copies of entries) and strings, never the object an "
     "accessor returned; an exception out of display()/repr() of an entry is not judged (report_only_inspector_raised:*); "
-    "something a Journal object holds besides its entries is not 'the entries' (report_only_journal_object_itself_keeps_objects_alive)",
+    "the entries are reached through the Journal object: a Journal object the client still holds after its block was left "
+    "(normally or by an exception) is judged together with its entries - IR objects that stay alive exactly as long as that "
+    "Journal object is referenced are kept alive by the journal's record of the block (the harness's own hooks are detached first)",
     "an operation that the client saw raise from the journaling layer itself (the repr() taken for the entry raised) is not a "
     "completed operation although the original constructor returned: its missing entry is not judged, the exception is "
     "(differential monitor)",
@@ -305,10 +314,14 @@ def liveness_refs(w, w_plain):
 
 
 LIVENESS = "entries-keep-objects-alive"
+JOURNAL_PINS = "journal-keeps-recorded-objects-alive"
 
 
 def strip_after(sig: str) -> str:
-    """A liveness signature without its 'after <inspector>' part (which only a localising judgement fills in)."""
+    """A liveness signature without its 'after <inspector>' part (which only a localising judgement fills in);
+    a journal-pins signature without how the block was left and the attribute (both read off the minimal witness)."""
+    if sig.startswith(JOURNAL_PINS):
+        return JOURNAL_PINS
     return "|".join(p for p in sig.split("|") if not p.startswith("after ")) if sig.startswith(LIVENESS) else sig
 
 
@@ -374,7 +387,11 @@ def judge(S, items, gc_check=True, confirm=True, localise=True):
     if left:
         info["classes_force_restored"] = mon.force_restore(S.baseline)
     # ---- liveness ----------------------------------------------------------------------------
+    # The IR objects were reachable only from the worlds and from frames that are gone by now (the runner's
+    # frames: those of the blocks that completed and those that an exception unwound).  The client keeps the
+    # Journal objects (its way to the entries), the entries and what it kept from looking.
     journals_kept = list(jobs.journals)
+    last_how = [jobs.last_exit.get(id(j)) for j in journals_kept]
     entries_kept = [list(j.entries) for j in journals_kept]
     info["entries_total"] = sum(len(e) for e in entries_kept)
     client_kept = jobs.kept  # what the client kept from looking at the journals: entries (and copies of entries), strings
@@ -382,8 +399,10 @@ def judge(S, items, gc_check=True, confirm=True, localise=True):
     jobs.journals = []
     jobs.kept = []
     jobs.problems = []
+    jobs.last_exit = {}
     plain = None
     pinned = None
+    journal_pins: list = []
     if gc_check and not still_open:
         refs, control = liveness_refs(w2, w1)
         w1 = w2 = None
@@ -392,14 +411,44 @@ def judge(S, items, gc_check=True, confirm=True, localise=True):
             raise RuntimeError("objects of the un-journaled world survive dropping it: the liveness monitor cannot judge")
         alive = [(n, r, i) for n, r, i in refs if r() is not None]
         info["gc_objects_checked"] = len(refs)
+        info["journals_kept_after_the_ir_was_dropped"] = len(journals_kept)
+        info["journals_kept_last_left_by_exception"] = sum(1 for h in last_how if h == "exception")
+        info["journals_kept_last_left_normally"] = sum(1 for h in last_how if h == "normal")
+        info["entries_of_journals_kept_last_left_by_exception"] = sum(
+            len(es) for es, h in zip(entries_kept, last_how) if h == "exception")
         if alive:
-            # the statement speaks of the entries: something else a Journal object holds is counted, not judged
+            # Stage 1 - the Journal objects, causally: they are dropped one at a time (the latest first: a journal
+            # refers to the one that was current when it was entered); the entries stay.  What dies with a Journal
+            # object was kept alive by that journal, not by an entry object.
+            for idx in reversed(range(len(journals_kept))):
+                before = [(n, r) for n, r, _ in alive if r() is not None]
+                if not before:
+                    break
+                via = []
+                own = getattr(journals_kept[idx], "__dict__", None) if localise else None
+                if isinstance(own, dict):
+                    # localisation, causal as well: this Journal object is not used again (its entries were copied
+                    # out above), so what it holds is emptied attribute by attribute
+                    n_before = len(before)
+                    for a in list(own):
+                        own[a] = None
+                        gc.collect()
+                        n_now = sum(1 for _, r in before if r() is not None)
+                        if n_now < n_before:
+                            via.append(a)
+                            n_before = n_now
+                own = None
+                journals_kept[idx] = None
+                gc.collect()
+                freed = sorted(n for n, r in before if r() is None)
+                if freed:
+                    journal_pins.append((last_how[idx], via, freed))
+            before = None
             journals_kept = None
             gc.collect()
-            if not any(r() is not None for _, r, _ in alive):
-                info["report_only_journal_object_itself_keeps_objects_alive"] = 1
-                alive = []
+            alive = [t for t in alive if t[1]() is not None]
         if alive:
+            # Stage 2 - the entries (and what the client kept from looking at them)
             alive_ids = {id(r()) for _, r, _ in alive}
             holders = set()
             for es in entries_kept + [k for k in client_kept if k and hasattr(k[0], "operation")]:
@@ -420,6 +469,18 @@ def judge(S, items, gc_check=True, confirm=True, localise=True):
                 raise RuntimeError(f"{names} objects survive although worlds and journal entries were dropped: harness leak")
             pinned = (n_alive, names, sorted(holders))
     journals_kept = entries_kept = client_kept = refs = control = alive = None
+    if journal_pins:
+        hows = {h for h, _, _ in journal_pins}
+        how = ("block left by an exception" if hows == {"exception"} else
+               "block left normally" if hows == {"normal"} else "blocks left normally and by an exception")
+        via = sorted({a for _, v, _ in journal_pins for a in v})
+        freed = [n for _, _, f in journal_pins for n in f]
+        viol.append((f"{JOURNAL_PINS}|{how}|via {'+'.join('Journal.' + a for a in via) or 'unlocated attribute of the Journal'}",
+                     f"{len(freed)} IR objects ({', '.join(sorted(set(freed)))}) that were reachable only from the dropped world and "
+                     f"from frames that had returned or been unwound survived gc.collect() while the client kept the Journal "
+                     f"object(s) and their entries, and died when {len(journal_pins)} Journal object(s) ({how}) were dropped "
+                     f"although the entries were still kept: as long as the client holds such a journal, entry.ref() / entry.obj of "
+                     f"its entries keep reaching live objects; held through Journal attribute(s): {via or 'not located'}"))
     if pinned is not None:
         n_alive, names, holders = pinned
         after = localise_inspection(S, items) if localise else ""
@@ -441,13 +502,13 @@ def judge(S, items, gc_check=True, confirm=True, localise=True):
 # reporting
 # =============================================================================================
 def report(ctx, S, items, sig, text):
-    if sig in S.shrunk:
-        ctx.violation(sig, S.shrunk[sig][0], S.shrunk[sig][1])
+    if sig in S.shrunk:  # reported under the signature that its minimal witness gave
+        ctx.violation(S.shrunk[sig][2], S.shrunk[sig][0], S.shrunk[sig][1])
         return
-    want_gc = sig.startswith(LIVENESS)
+    want_gc = sig.startswith((LIVENESS, JOURNAL_PINS))
     if len(S.shrunk) >= MAX_SHRINKS:  # a flood (a mutant): report, do not spend the budget on shrinking
         msg = text + "\n  marked history (not shrunk):\n    " + "\n    ".join(str(it) for it in items[:80])
-        S.shrunk[sig] = (msg, {"items": items})
+        S.shrunk[sig] = (msg, {"items": items}, sig)
         ctx.violation(sig, msg, {"items": items})
         return
 
@@ -464,7 +525,7 @@ def report(ctx, S, items, sig, text):
     if hit is None:  # the shrunk witness did not survive the confirmation run: keep the original
         small, hit = items, (sig, text)
     msg = hit[1] + "\n  minimal marked history:\n    " + "\n    ".join(str(it) for it in small[:60])
-    S.shrunk[sig] = S.shrunk[hit[0]] = (msg, {"items": small})
+    S.shrunk[sig] = S.shrunk[hit[0]] = (msg, {"items": small}, hit[0])
     ctx.violation(hit[0], msg, {"items": small})
 
 
@@ -526,6 +587,9 @@ def plan(tier: str) -> dict:
         "calls_matched": 30000,
         "calls_raised": 2000,
         "gc_objects_checked": 10000,
+        "journals_kept_last_left_by_exception": 400,
+        "journals_kept_last_left_normally": 400,
+        "entries_of_journals_kept_last_left_by_exception": 4000,
         "del_io_inside_a_journal": 150,
         "del_io_outside_after_a_journal": 150,
         "client_calls_checked": 3000,
